@@ -79,6 +79,15 @@ def run(tier):
                     continue
                 tasks.append({"op": "format_check", "src": e["variants"][0]["src"], "ver": progs.VERS[family][0],
                               "_i": 3 * 10 ** 7 + 10 ** 6 * len(fam_name) + j, "_u": e["used"], "_l": "none"})
+        # every chain of up to three operators with variables as atoms (the same exhaustive set as C03 / C10): the formatter decides
+        # where blanks and brackets are owed between signs, increments, casts and binary operators
+        from . import c03
+        t0, _ = syntax.generate(check, family, num=1, seed=core.seed(), depth=1)
+        to_, bo_ = syntax.generate(check, family, rootcat="stmt", rootmax=1, depth=4, allowed=[i for i in c03.exprset(t0) if i != "ScalarLnumber"],
+                                   exhaustive=True, maxchoices=7, timeout=3000)
+        for j, e in enumerate(progs.expand_all(to_, bo_, core.seed(), ["none"])):
+            if not e.get("skip"):
+                tasks.append({"op": "format_check", "src": e["variants"][0]["src"], "ver": progs.VERS[family][0], "_i": 5 * 10 ** 7 + j, "_u": e["used"], "_l": "none"})
         # programs nested many blocks deep (indentation state of the formatter)
         for j, src in enumerate(progs.deep_sources(check, family, core.seed(), 60 if tier == "quick" else 600)[: (25 if tier == "quick" else 300)]):
             tasks.append({"op": "format_check", "src": src, "ver": progs.VERS[family][0], "_i": 10 ** 7 + j, "_u": ["deep-nesting"], "_l": "none"})
